@@ -510,6 +510,12 @@ impl<'a> Printer<'a> {
     }
 
     pub fn recipe(mut self, r: &RecipeM) -> (String, Features) {
+        // a byte order mark on a line of its own is tolerated before a front matter (directly before the
+        // fence, or without a front matter, it is text)
+        if r.front.is_some() && !self.plain && self.tape.chance(1, 10) {
+            self.f.odd_spacing += 1;
+            self.out.push_str("\u{feff}\n");
+        }
         // leading blank lines
         if !self.plain && self.tape.chance(1, 10) {
             self.out.push('\n');
